@@ -118,7 +118,7 @@ func TestC02(t *testing.T) {
 		c.rec.F.Exhaustive = append(c.rec.F.Exhaustive, "version x base x temporal metrics (518,400 vectors)")
 	}
 
-	c.rapidStage("rapid", pick(30000, 1000000), func(rt *rapid.T) {
+	c.rapidStage("rapid", pick(64000, 1000000), func(rt *rapid.T) {
 		lv := rapid.SampledFrom([]spec.Level{spec.Temporal, spec.Environmental}).Draw(rt, "decoder")
 		vec := gen.ValidV3(lv).Draw(rt, "vector")
 		cs := scoreCase3{Level: int(lv), NilRecv: rapid.Bool().Draw(rt, "nilrecv"), Input: vec.String()}
